@@ -42,6 +42,11 @@ def model_covers_substring_case(spec, res):
 def classify(monitor, item, spec, res):
     """stable key of a monitor violation: <monitor>[:<feature>...] — features name the call site / input class"""
     cfg = spec["cfg"]
+    if monitor == "attempt":
+        # creation attempts (failed pre-steps included) are judged like executions; same input classes as `count`
+        key = classify("count", item, spec, res)
+        return key if key in ("count:mct>max_tries", "count:object-root-creation-hidden-from-retry-budget",
+                              "count:worker-id-substring-of-another") else "attempt" + key[len("count"):]
     if substring_ids(spec):
         return monitor + ":worker-id-substring-of-another"
     feats = []
